@@ -190,6 +190,21 @@ pub fn passkey_from_pre(pre: &PreCred) -> Passkey {
     let key = CoseKeyBuilder::new_ec2_priv_key(iana::EllipticCurve::P_256, x, y, sk.to_bytes().to_vec())
         .algorithm(iana::Algorithm::ES256)
         .build();
+    let mut key = key;
+    // a COSE key is a map: a record that came from elsewhere may list its parameters in another order
+    let by_label = |k: &coset::CoseKey, l: i64| k.params.iter().find(|(lab, _)| *lab == coset::Label::Int(l)).cloned();
+    let order: &[i64] = match pre.key_layout {
+        1 => &[-1, -4, -2, -3],
+        2 => &[-4, -3, -2, -1],
+        3 => &[-2, -3, -4],
+        _ => &[],
+    };
+    if !order.is_empty() {
+        let params: Vec<_> = order.iter().filter_map(|l| by_label(&key, *l)).collect();
+        if params.len() == order.len() {
+            key.params = params;
+        }
+    }
     let mut r = Rng::new(pre.key_seed ^ 0x686d_6163);
     Passkey {
         key,
